@@ -214,8 +214,10 @@ _mods = {}
 _fake_mod = None
 
 
-def load_script(variant="real"):
-    if variant in _mods:
+def load_script(variant="real", fresh=False):
+    """the script as a module.  fresh=True: a NEW module object (what a new process has: no module-level state survives a
+    restart of the script - every invocation of the differential runs gets one)"""
+    if variant in _mods and not fresh:
         return _mods[variant]
     name = "batchie_orchestrator_c19_" + variant
     if variant == "real":
@@ -231,7 +233,8 @@ def load_script(variant="real"):
         mod.__file__ = SCRIPT
         exec(compile(src.replace(_REPAIR_OLD, _REPAIR_NEW), SCRIPT + "<repaired>", "exec"), mod.__dict__)
     mod.logger.disabled = True
-    _mods[variant] = mod
+    if not fresh:
+        _mods[variant] = mod
     return mod
 
 
@@ -352,6 +355,7 @@ class Runner:
         self.spawn = spawn
         self.single = single_invocation
         self.mod = load_script(variant)
+        self.variant = variant
         self.tmp = _tmpdir()
         self.out = os.path.join(self.tmp, "out")
         self.scr_dir = os.path.join(self.tmp, "screens")   # the operator's screen files: screens/<index>/exp.h5
@@ -531,13 +535,15 @@ class Runner:
     def drive(self):
         mod = self.mod
         saved = (mod.os, mod.shutil, mod.subprocess, sys.argv)
-        mod.os = _Proxy(os, makedirs=self._makedirs)
-        mod.shutil = _Proxy(shutil, rmtree=self._rmtree)
-        mod.subprocess = _Proxy(subprocess, check_call=self._check_call)
         try:
             while self.pos < len(self.sched):
                 pos0 = self.pos
                 self.invocations += 1
+                # every invocation is a new process of the script: a fresh module, no state carried over in memory
+                mod = load_script(self.variant, fresh=True) or self.mod
+                mod.os = _Proxy(os, makedirs=self._makedirs)
+                mod.shutil = _Proxy(shutil, rmtree=self._rmtree)
+                mod.subprocess = _Proxy(subprocess, check_call=self._check_call)
                 # one invocation of the script; the operator picks the screen file from what the output directory shows
                 r = self.op_screen()
                 self.cur_inv = [r, [], 1]      # end: 0 main() returned, 1 it did not (interruption / exception), 2 schedule exhausted
@@ -589,10 +595,15 @@ class Runner:
                     self.fail(2)
                 except TypeError:
                     self.fail(9)
+                except Exception as e:      # noqa: BLE001 - any other exception of the script: it neither continued nor named a directory
+                    ev = dict(type="script-error", error=type(e).__name__, msg=str(e)[:200])
+                    ev.update(self.context(scan(self.out)))
+                    self.events.append(ev)
+                    self.fail(7)
                 if self.pos == pos0 or self.single:
                     break
         finally:
-            mod.os, mod.shutil, mod.subprocess, sys.argv = saved
+            self.mod.os, self.mod.shutil, self.mod.subprocess, sys.argv = saved
         self.cur_inv = None
         tree = read_tree(self.out)
         self.final = [[i, [[j, pd + [opt(unstamp(self.by.get((i, j))))]] for j, pd in pls]] for i, pls in tree]
@@ -651,6 +662,9 @@ def crash_free_ref(mode, bs, n, L, variant="real"):
 def judge(mode, bs, n, sched, run, cf):
     """-> list of (clause, text, context) in chronological order; empty = the property holds on this run"""
     fails = []
+    for ev in run.events:
+        if ev.get("type") == "script-error":
+            fails.append(("script-raised", "the script ended with %s (%s): it neither continued the simulation nor named a directory to remove" % (ev["error"], ev["msg"]), ev))
     ever = set()
     iters_of_inv = {}
     for ev in run.events:
